@@ -17,7 +17,7 @@ or a cancellation at the k-th executed fault point), and the three operations as
                     Relayers, pyatv/core/relayer.py :117 takeover / :125 release) and
                     RaopPlaybackManager.acquire (refuses when `_is_acquired`)
 
-The scripts transcribe the code AFTER the five `fix:` commits of this property (D13 a-e);
+The scripts transcribe the code AFTER the six `fix:` commits of this property (D13 a-f);
 `Orig.*` are the scripts of the pinned tree before the repair (they are not `Bracketed`;
 Props/C18.lean proves the leaks as counterexamples).
 
@@ -47,6 +47,10 @@ inductive Res
   | server                 -- started StaticFileWebServer
   | playConn               -- AirPlay HttpConnection (AirPlayStream._connection)
   | playTask               -- AirPlayStream._play_task
+  | eventch                -- AirPlayV2.event_channel (TCP connection opened by setup_channel)
+  | fbtask                 -- AirPlayV2._feedback_task / AirPlayV1._keep_alive_task
+  | audiosock              -- the audio UDP endpoint opened by StreamClient.send_audio
+  | volDeferred            -- not a resource: the local `volume` of stream_file is set (set_volume failed)
   deriving DecidableEq, Repr
 
 def Res.toStr : Res → String
@@ -62,6 +66,10 @@ def Res.toStr : Res → String
   | .server => "server"
   | .playConn => "playConn"
   | .playTask => "playTask"
+  | .eventch => "eventch"
+  | .fbtask => "fbtask"
+  | .audiosock => "audiosock"
+  | .volDeferred => "volDeferred"
 
 /-- What strikes at a fault point. -/
 inductive FKind | fail | cancel
@@ -219,27 +227,61 @@ def connectScript (ps : List Nat) : Prog :=
     (.tryExcept (connectBody ps)
       (.seq (closeAll ps) (.seq (.relOwn .httpSession) .await)))
 
+/-- StreamProtocol.setup of the protocol object chosen by RaopPlaybackManager.setup:
+    pyatv/protocols/raop/protocols/airplayv1.py AirPlayV1.setup (:47) — pair-verify, ANNOUNCE,
+    SETUP; airplayv2.py AirPlayV2.setup (:107) = _setup_base (:51: verify_connection, SETUP,
+    setup_channel → event channel) + setup_audio_stream (:112: SETUP). -/
+def protoSetup (v2 : Bool) : List Prog :=
+  if v2 then [.await, .await, .await, .new .eventch, .await] else [.await, .await, .await]
+
+/-- start_feedback: AirPlayV1 (:85) asks /feedback and then starts the keep-alive task;
+    AirPlayV2 (:167) just creates the feedback task. -/
+def startFeedback (v2 : Bool) : List Prog :=
+  if v2 then [.new .fbtask] else [.await, .new .fbtask]
+
+/-- StreamClient.close (:279): protocol.teardown() (cancels the feedback task, closes the event
+    channel — AirPlayV2.teardown :158, AirPlayV1.teardown :79), control and timing endpoints. -/
+def clientClose : List Prog :=
+  [.relOwn .fbtask, .relOwn .eventch, .relOwn .ctrl, .relOwn .timing]
+
+/-- StreamClient.send_audio (:375): audio endpoint, start_feedback, RECORD, FLUSH, the deferred
+    set_volume, the packet pump; finally: TEARDOWN request, close the audio endpoint,
+    protocol.teardown(), close(). -/
+def sendAudio (v2 : Bool) : Prog :=
+  .tryFinally
+    (Prog.ofList ([.await, .new .audiosock] ++ startFeedback v2 ++
+      [.await, .await,                                                -- rtsp.record, rtsp.flush
+       .whenOwn .volDeferred (.seq (.relOwn .volDeferred) .await),    -- if volume: await self.set_volume(...)
+       .await]))                                                      -- _stream_data
+    (.tryFinally (.whenOwn .audiosock .await)                         -- try: if transport: await rtsp.teardown()
+      (Prog.ofList (.relOwn .audiosock :: clientClose)))              -- finally: transport.close(); protocol.teardown(); self.close()
+
 /-- RaopStream.stream_file.  `volKnown`: the receiver reported `initialVolume` (no
-    set_volume call); `metaGiven`: metadata passed by the caller (no get_metadata call). -/
-def streamFile (volKnown metaGiven : Bool) : Prog :=
+    set_volume call); `metaGiven`: metadata passed by the caller (no get_metadata call);
+    `v2`: the receiver is streamed to with AirPlay 2 (get_protocol_version). -/
+def streamFileWith (send : Bool → Prog) (volKnown metaGiven v2 : Bool) : Prog :=
   .seq (.acq [.acquired])                                   -- playback_manager.acquire()
     (.tryFinally
-      (Prog.ofList [
+      (Prog.ofList ([
         .acq raopTakeover,                                  -- core.takeover(Audio, Metadata, PushUpdater, RemoteControl)
         .await, .new .rconn,                                -- playback_manager.setup: http_connect
+        .await,                                             --   get_protocol_version (helper parsing of the TXT record; may raise)
         .await, .new .ctrl,                                 -- client.initialize: control endpoint
         .await, .new .timing,                               --                    timing endpoint
-        .await,                                             --                    rtsp.info
-        .await,                                             --                    protocol.setup
+        .await] ++                                          --                    rtsp.info
+        protoSetup v2 ++ [                                  --                    protocol.setup
         .await, .new .audio,                                -- open_source
         (if metaGiven then .skip else .await),              -- audio_file.get_metadata
-        (if volKnown then .skip else .attempt .await),      -- try: audio.set_volume except Exception: defer
-        .await ])                                           -- client.send_audio
-      (.seq (Prog.ofList (raopTakeover.map .relOwn))        -- if takeover_release: takeover_release()
+        (if volKnown then .skip                             -- try: audio.set_volume
+         else .attempt (.tryExcept .await (.new .volDeferred))),  --   except Exception: volume = self.audio.volume
+        send v2 ]))                                         -- client.send_audio
+      (.seq (Prog.ofList ((raopTakeover.map .relOwn) ++ [.relOwn .volDeferred]))  -- if takeover_release: takeover_release()
         (.tryFinally
           (.whenOwn .audio (.seq (.relOwn .audio) .await))  -- if audio_file: await audio_file.close()
-          (Prog.ofList [.relOwn .ctrl, .relOwn .timing,     -- teardown(): stream_client.close()
-                        .relOwn .rconn, .rel .acquired]))))  --   connection.close(); _is_acquired = False
+          (Prog.ofList (clientClose ++                      -- teardown(): stream_client.close()
+                        [.relOwn .rconn, .rel .acquired])))))  --   connection.close(); _is_acquired = False
+
+def streamFile (volKnown metaGiven v2 : Bool) : Prog := streamFileWith sendAudio volKnown metaGiven v2
 
 /-- AirPlayStream.play_url.  `localFile`: the URL is a local file served by a web server. -/
 def playUrl (localFile : Bool) : Prog :=
@@ -279,6 +321,17 @@ def streamFile (volKnown metaGiven : Bool) : Prog :=
            -- was assigned only after BOTH endpoints existed
            .whenOwn .timing (.relOwn .ctrl), .relOwn .timing,
            .relOwn .rconn, .rel .acquired]))))
+
+/-- D13f: send_audio's finally awaited the TEARDOWN request unprotected: when it failed or
+    was cancelled the audio endpoint was never closed. -/
+def sendAudio (v2 : Bool) : Prog :=
+  .tryFinally
+    (Prog.ofList ([.await, .new .audiosock] ++ startFeedback v2 ++
+      [.await, .await, .whenOwn .volDeferred (.seq (.relOwn .volDeferred) .await), .await]))
+    (.seq (.whenOwn .audiosock (.seq .await (.relOwn .audiosock))) (Prog.ofList clientClose))
+
+/-- stream_file of the current tree with that send_audio. -/
+def streamFileF (volKnown metaGiven v2 : Bool) : Prog := streamFileWith sendAudio volKnown metaGiven v2
 
 /-- the web server is started and the takeover done before the try. -/
 def playUrl (localFile : Bool) : Prog :=
